@@ -1,7 +1,7 @@
 (* C08 — property theorems only.  Each is closed by [exact] of a lemma proved in C08/Proofs*.v
    and followed by Print Assumptions.  Constants, the footprint macro and the memory orders are
    those re-extracted from the code on this run (gen/Params_C08.v). *)
-From MV Require Import C08.Model C08.ModelConc C08.ProofsSeq C08.ProofsDrain C08.ProofsConc gen.Params_C08.
+From MV Require Import C08.Model C08.ModelConc C08.ProofsSeq C08.ProofsDrain C08.ProofsConc C08.ProofsConcInv gen.Params_C08.
 Local Open Scope Z_scope.
 
 (* tie of the literals used by the model to the headers: cache line size, header layout, and the
@@ -92,37 +92,56 @@ Theorem shm_conc_memory_orders_sufficient : mo_sufficient code_params = true.
 Proof. vm_compute. reflexivity. Qed.
 Print Assumptions shm_conc_memory_orders_sufficient.
 
-(* FULL STATEMENTS (NOT PROVED; covered on every run by trace acceptance of the real code's schedules
-   by the extracted model, the model's ghost monitors on each accepted trace, and the independent
-   monitor, including a writer killed after each of its atomic operations):
-     shm_conc_inv_reachable : forall sched, mo_sufficient P = true ->
-        let s := exec csys (cstep P) (cinit n locked tries kill scripts) sched in
-        c_uncov s = 0 /\ c_overlap s = 0 /\ exists consumed, c_committed s = consumed ++ c_unread s /\
-        (c_delivered s = consumed \/ exists m rest, c_unread s = m :: rest /\ c_delivered s = consumed ++ [m])
-     shm_crash_safe : the same state followed by any reader-only schedule delivers only whole committed
-        messages, in order (corollary: a writer that stops is a schedule without further writer steps).
-   PROVED PART (frame half of crash safety, for EVERY state, reachable or not): once only the reader
-   runs, no data line, no header word and not the committed list ever changes, and everything the
-   reader is given from then on is exactly the (n_bytes, payload) found in memory at that moment at the
-   line it fetches; the missing half is that in reachable states those lines hold the committed
-   unread messages (sequentially: shm_seq_refines_fifo). *)
-Theorem shm_crash_safe_partial : forall P sched s, (forall tc, In tc sched -> fst tc = 0%nat) ->
+(* The reachable-state invariant under EVERY interleaving (schedule = any list of (thread, choice)),
+   for every ring size, every number of writers under the write lock (or one writer without it), every
+   script of message sizes >= 1, every retry bound and every kill point, with the memory orders the code
+   passes on this run: each call linearises at its single cursor store / load, the other side's cursor
+   being possibly stale but monotone (C08/ProofsConcInv.v: CInv, with per-program-point knowledge
+   of the writers and of the reader).  Consequences stated here:
+     - no plain read of a header or payload line outside the reader's release/acquire view (visibility);
+     - the writer never stores into a line of a committed unread message or the live wrap marker;
+     - committed = consumed ++ unread and delivered = consumed (+ the message being consumed): every
+       delivery is the next committed message with its exact line, length and payload tag, once, in order;
+     - the unread messages are intact in memory (header words, payload tag, versions covered by the
+       stamp of write_cursor). *)
+Theorem shm_conc_inv_reachable : forall n locked tries kill scripts sched,
+  1 <= n < 2147483648 -> valid_scripts scripts ->
+  let s := exec csys (cstep code_params) (cinit n locked tries kill scripts) sched in
+  c_uncov s = 0%nat /\ c_overlap s = 0%nat /\
+  (exists consumed, c_committed s = consumed ++ c_unread s /\
+     (c_delivered s = consumed \/ exists m rest, c_unread s = m :: rest /\ c_delivered s = consumed ++ [m])) /\
+  is_prefix (c_delivered s) (c_committed s) /\
+  Forall (mok s) (c_unread s).
+Proof.
+  intros n locked tries kill scripts sched Hn Hs.
+  exact (conc_inv_reachable code_params n locked tries kill scripts sched Hn Hs shm_conc_memory_orders_sufficient).
+Qed.
+Print Assumptions shm_conc_inv_reachable.
+
+(* Crash safety as a corollary: after ANY schedule the writers stop for good (they are never
+   scheduled again, wherever they were: inside update_cached_remain, between the marker and the wrap
+   store, between the header and the commit store, holding the lock ...); whatever the reader does
+   from then on, the committed list does not change and everything it is given is a prefix of it:
+   only whole committed messages, in order, with exact length and bytes, read from covered lines. *)
+Theorem shm_crash_safe : forall n locked tries kill scripts sched rsched,
+  1 <= n < 2147483648 -> valid_scripts scripts ->
+  (forall tc, In tc rsched -> fst tc = 0%nat) ->
+  let s1 := exec csys (cstep code_params) (cinit n locked tries kill scripts) sched in
+  let s2 := exec csys (cstep code_params) s1 rsched in
+  c_committed s2 = c_committed s1 /\ is_prefix (c_delivered s2) (c_committed s1) /\ c_uncov s2 = 0%nat.
+Proof.
+  intros n locked tries kill scripts sched rsched Hn Hs Hr.
+  exact (conc_crash_safe code_params n locked tries kill scripts sched rsched Hn Hs shm_conc_memory_orders_sufficient Hr).
+Qed.
+Print Assumptions shm_crash_safe.
+
+(* frame property of reader-only schedules from ANY state (reachable or not): no data line, header
+   word or the committed list changes, and every later delivery is what memory holds at that state *)
+Theorem shm_reader_only_frame : forall P sched s, (forall tc, In tc sched -> fst tc = 0%nat) ->
   let s' := exec csys (cstep P) s sched in
   c_committed s' = c_committed s /\ c_w s' = c_w s /\
   c_hN s' = c_hN s /\ c_hC s' = c_hC s /\ c_body s' = c_body s /\ c_overlap s' = c_overlap s /\
   exists extra, c_delivered s' = c_delivered s ++ extra /\
     Forall (fun d => exists ln, d = (ln, c_hN s ln, c_body s ln)) extra.
 Proof. intros P sched s H. exact (reader_only_frame P sched s H). Qed.
-Print Assumptions shm_crash_safe_partial.
-
-(* a reader step never touches writer-owned state and delivers only what the header at its read
-   cursor (or at line 0 after the marker) says: the reader's half of "each call linearises at its
-   single cursor load / store" *)
-Theorem shm_conc_inv_reachable_partial : forall P s s' l, rstep P s = Some (s', l) ->
-  c_committed s' = c_committed s /\ c_w s' = c_w s /\ c_crem s' = c_crem s /\
-  c_hN s' = c_hN s /\ c_hC s' = c_hC s /\ c_body s' = c_body s /\ c_ver s' = c_ver s /\
-  c_overlap s' = c_overlap s /\ c_wr s' = c_wr s /\
-  (c_delivered s' = c_delivered s \/
-   exists ln, c_delivered s' = c_delivered s ++ [(ln, c_hN s ln, c_body s ln)] /\ (ln = c_r s \/ ln = 0)).
-Proof. exact rstep_frame. Qed.
-Print Assumptions shm_conc_inv_reachable_partial.
+Print Assumptions shm_reader_only_frame.
